@@ -69,8 +69,17 @@ func GenUnobstructedScript(t *rapid.T, o GenOpts) *Script {
 		s.World.Workloads = append(s.World.Workloads, w)
 	}
 	s.Ops = []Op{{Kind: "cycle"}, {Kind: "binder"}, {Kind: "kubelet"}}
-	if chance(t, "ucycle2", 50) {
-		s.Ops = append(s.Ops, Op{Kind: "cycle"}, Op{Kind: "binder"}, Op{Kind: "kubelet"})
+	// later cycles after the situation changed: a quota is edited, a pod finishes or is deleted
+	for c := 0; c < rapid.IntRange(0, 2).Draw(t, "umore"); c++ {
+		switch pick(t, "uchange", "quota", "quota", "complete", "delete", "none") {
+		case "quota":
+			s.Ops = append(s.Ops, Op{Kind: "set_quota", Arg: pick(t, "uq", leaves...), N: rapid.IntRange(0, slots).Draw(t, "unewquota")})
+		case "complete":
+			s.Ops = append(s.Ops, Op{Kind: "complete", Arg: fmt.Sprintf("r%d-p0", rapid.IntRange(0, max(0, k-1)).Draw(t, "ucomp"))})
+		case "delete":
+			s.Ops = append(s.Ops, Op{Kind: "delete", Arg: fmt.Sprintf("r%d-p0", rapid.IntRange(0, max(0, k-1)).Draw(t, "udel"))})
+		}
+		s.Ops = append(s.Ops, Op{Kind: "advance", N: pick(t, "uadv", 1, 61)}, Op{Kind: "cycle"}, Op{Kind: "binder"}, Op{Kind: "kubelet"})
 	}
 	return s
 }
